@@ -58,8 +58,10 @@ pub fn judge(case: &Case) -> Verdict {
         }
         let raw = t.raw.as_ref().unwrap();
         let in_census = jsx_census(&t.input).total;
-        let has_dc_call = resolve_type && (case.source.contains("defineComponent(") || case.source.contains("(defineComponent)"));
         let in_json = module_json(&t.input);
+        // (decided on the tree: `defineComponent\0(...)` is a call too for swc's lexer)
+        let has_dc_call = resolve_type
+            && crate::astcmp::has_define_component_call(&in_json["body"], vue_define_component_ctxt(&in_json["body"]));
         let out_json = module_json(raw);
         if in_census == 0 && !has_dc_call {
             // returned unchanged, nothing added
